@@ -41,6 +41,25 @@ Tie B, five streams.
     raise is the conjunction after the try: OSError from hash_file_content on an unreadable regular file.
 
 (5) hash_file_content vs md5 of the whole file around the block-size boundaries.
+
+Round 3 (the Lean machine is now `CacheRun.stepX`, op `cache_x_history`). The project family also has
+  * a package `pkg` (`__init__`, `impl`, `consts`; absolute, relative and `import a.b` forms) and a
+    plain module `reexp` whose variants have NO function / class of their own (re-export only, empty,
+    constants only, import only) — on the path to the module that is edited, as the target's import,
+    one level down, in site-packages and among the stdlib-named modules;
+  * a module file that is a symbolic link (`settings.py -> impl/settings_{dev,prod}.py`) and a
+    package directory that is one (`plugins -> plugins_v{1,2}`): ops `relink` (re-pointed between
+    runs) and `editlink` (in-place edit through the link), plus edits of the link targets;
+  * op `damage`: the cache file is removed / truncated / made non-JSON / given a wrong shape between
+    two runs, crossed with every strictness setting (`--strict`, `--threshold N` for N at / around
+    the target's own badness, through flags and pyproject.toml). Oracle: the run on the damaged file
+    is the run without a cache file (exit status, stdout, cache rewritten) and the run after it hits.
+    The target's own badness is observed from outside (a `--strict` from-scratch run) and given to the
+    model, which then decides fatal-or-not for every strictness setting itself.
+Every run with a cache file now prints the cacheable document (`-o cacheable`), compared with the
+from-scratch run's output. In-process: the gate's badness and diagnostic level on every corruption
+case vs `CacheRun.gateDiag`; the follower stream covers the new shapes (paths through links are
+reported as opened, `module-read-but-not-recorded:local:via-link`).
 """
 from __future__ import annotations
 
@@ -164,21 +183,136 @@ DIRECT += [
 ]
 TRANS += [("def leaf(c):\n    return c.z\n\n\ndef Leaf(c):\n    return c.capital\n", [])]            # 5
 
-ROLES = ["target", "direct", "trans", "helpers", "pipmod", "pipdeep", "stdmod", "stddeep"]
+# ---- round 3: modules WITHOUT a function / class of their own on the path to the edited module -----
+# (a package `__init__` that only re-exports, a module that only imports, an empty module, a
+# constants-only module), as the target's direct import, deeper in the chain, in site-packages and
+# among the stdlib-named modules; and modules behind symbolic links (file link, directory link).
+# A `FileIr` is a mapping of the functions / classes of a file: for these modules it is EMPTY.
+PKGINIT = [
+    "from pkg.impl import thing\n",                                                        # 0 re-export only
+    "",                                                                                    # 1 empty
+    "LIMIT = 3\nNAMES = (\"a\", \"b\")\n",                                                 # 2 constants only
+    "import pkg.impl\n",                                                                   # 3 plain import only
+    "from pkg.impl import thing\n\n\ndef wrap(w):\n    return thing(w.wrapped)\n",           # 4 has a function
+    "from pkg.impl import thing as thing\nfrom pkg.consts import LIMIT\n",                  # 5 two re-exports
+    "from pkg import impl\n",                                                              # 6 sub-module as a member
+    "from .impl import thing\n",                                                           # 7 relative re-export
+    "from pkg.impl import thing\n\n\nclass Box:\n    def get(self):\n        return self.boxed\n",  # 8 has a class
+]
+PKGIMPL = [
+    "def thing(x):\n    return x.alpha\n",
+    "def thing(x):\n    return x.beta\n",
+    "from trans import leaf\n\n\ndef thing(x):\n    return leaf(x.alpha)\n",
+    "from pkg.consts import LIMIT\n\n\ndef thing(x):\n    return x.alpha\n",
+    "from .consts import LIMIT\n\n\ndef thing(x):\n    return x.gamma\n",
+]
+PKGCONSTS = [
+    "LIMIT = 3\n",
+    "LIMIT = 4\n",
+    "from trans import leaf\nLIMIT = 3\n",                  # constants + an import, still nothing defined
+]
+REEXP = [
+    "from trans import leaf\n",                                                            # 0 re-export only
+    "from trans import leaf as leaf2\nfrom trans import leaf\n",                            # 1
+    "import trans\nleaf = trans.leaf\n",                                                   # 2 alias by assignment
+    "from pkg import thing\nfrom trans import leaf\n",                                      # 3 through the package
+    "from trans import leaf\n\n\ndef own(o):\n    return leaf(o.own)\n",                     # 4 control: has a function
+    "from trans import leaf\nFLAG = True\n",                                               # 5 re-export + constant
+]
+N_R2_TARGET, N_R2_DIRECT = len(TARGET), len(DIRECT)
+TARGET += [
+    ("from pkg import thing\n\n\ndef top(a):\n    return thing(a)\n", ["pkg"]),                                    # 10
+    ("from reexp import leaf\n\n\ndef top(a):\n    return leaf(a.r)\n", ["reexp"]),                                # 11
+    ("import pkg\n\n\ndef top(a):\n    return pkg.thing(a)\n", ["pkg"]),                                           # 12
+    ("from direct import helper\nfrom pkg import thing\nfrom reexp import leaf\n\n\ndef top(a):\n    a.x = 1\n"
+     "    return helper(a) + thing(a.t) + leaf(a.r)\n", ["direct", "pkg", "reexp"]),                               # 13
+    ("from settings import load\n\n\ndef top(a):\n    return load(a)\n", ["settings"]),                            # 14 file link
+    ("from plugins.core import run\n\n\ndef top(a):\n    return run(a.plug)\n", ["plugins.core"]),                 # 15 dir link
+    ("from direct import helper\nfrom settings import load\nfrom plugins.core import run\nimport plugins\n\n\n"
+     "def top(a):\n    return helper(a) + load(a.env) + run(a.plug)\n", ["direct", "settings", "plugins.core", "plugins"]),  # 16
+    ("from pkg.impl import thing\nfrom pkg import consts\n\n\ndef top(a):\n    return thing(a.d)\n",
+     ["pkg.impl", "pkg.consts"]),                                                                                # 17
+    ("def top(a):\n    return a.clean\n", []),                                                                    # 18 badness 0, no import
+    ("from direct import helper\n\n\ndef top(a):\n    return helper(a) + undefined_fn(a.k) + other_undefined(a.j)\n",
+     ["direct"]),                                                                                                # 19 more badness
+]
+DIRECT += [
+    ("from pkg import thing\n\n\ndef helper(b):\n    return thing(b.viapkg)\n", ["pkg"]),                          # 9  def-less one level down
+    ("from trans import leaf as helper\n", ["trans"]),                                                            # 10 direct itself def-less
+    ("from reexp import leaf\n\n\ndef helper(b):\n    return leaf(b.viare)\n", ["reexp"]),                         # 11
+    ("from settings import load\n\n\ndef helper(b):\n    return load(b.env)\n", ["settings"]),                     # 12 link one level down
+    ("from pkg import thing as helper\nLEVEL = 2\n", ["pkg"]),                                                    # 13 def-less -> def-less
+]
+PIPMOD += ["from pipdeep import deep as pfn\n"]                                            # 5 def-less in site-packages
+STDMOD += ["from asynchat import ac as sfn\n"]                                             # 3 def-less stdlib-named
+SDEV = ["def load(env):\n    return env.debug_flag\n", "def load(env):\n    return env.debug_flag2\n",
+        "from trans import leaf\n\n\ndef load(env):\n    return leaf(env.debug_flag)\n"]
+SPROD = ["def load(env):\n    return env.secret_key\n", "def load(env):\n    return env.secret_key2\n"]
+PLUGV1 = ["def run(p):\n    return p.v1\n", "def run(p):\n    return p.v1b\n"]
+PLUGV2 = ["def run(p):\n    return p.v2\n", "def run(p):\n    return p.v2b\n"]
+PINIT1 = [""]
+PINIT2 = ["VERSION = 2\n"]
+
+ROLES = ["target", "direct", "trans", "helpers", "pipmod", "pipdeep", "stdmod", "stddeep",
+         "pkginit", "pkgimpl", "pkgconsts", "reexp", "sdev", "sprod", "plugv1", "plugv2", "pinit1", "pinit2"]
 SP_DIR, STD_DIR = "_sp/site-packages", "_std"
 FILES = {"target": ("target.py", TARGET), "direct": ("direct.py", DIRECT), "trans": ("trans.py", TRANS),
          "helpers": ("Helpers.py", [(x, None) for x in HELPERS]),
          "pipmod": (SP_DIR + "/pipmod.py", [(x, None) for x in PIPMOD]),
          "pipdeep": (SP_DIR + "/pipdeep.py", [(x, None) for x in PIPDEEP]),
          "stdmod": (STD_DIR + "/smtpd.py", [(x, None) for x in STDMOD]),
-         "stddeep": (STD_DIR + "/asynchat.py", [(x, None) for x in STDDEEP])}
+         "stddeep": (STD_DIR + "/asynchat.py", [(x, None) for x in STDDEEP]),
+         "pkginit": ("pkg/__init__.py", [(x, None) for x in PKGINIT]),
+         "pkgimpl": ("pkg/impl.py", [(x, None) for x in PKGIMPL]),
+         "pkgconsts": ("pkg/consts.py", [(x, None) for x in PKGCONSTS]),
+         "reexp": ("reexp.py", [(x, None) for x in REEXP]),
+         "sdev": ("impl/settings_dev.py", [(x, None) for x in SDEV]),
+         "sprod": ("impl/settings_prod.py", [(x, None) for x in SPROD]),
+         "plugv1": ("plugins_v1/core.py", [(x, None) for x in PLUGV1]),
+         "plugv2": ("plugins_v2/core.py", [(x, None) for x in PLUGV2]),
+         "pinit1": ("plugins_v1/__init__.py", [(x, None) for x in PINIT1]),
+         "pinit2": ("plugins_v2/__init__.py", [(x, None) for x in PINIT2])}
+# modules that ARE a file of the project (found under their own path)
 MODNAME = {"direct": "direct", "trans": "trans", "helpers": "Helpers", "pipmod": "pipmod", "pipdeep": "pipdeep",
-           "stdmod": "smtpd", "stddeep": "asynchat"}
+           "stdmod": "smtpd", "stddeep": "asynchat", "pkginit": "pkg", "pkgimpl": "pkg.impl", "pkgconsts": "pkg.consts",
+           "reexp": "reexp"}
 ROLE_OF_MOD = {v: k for k, v in MODNAME.items()}
 CLASS = {"target": "target", "direct": "local", "trans": "local", "helpers": "local", "pipmod": "pip", "pipdeep": "pip",
-         "stdmod": "stdlib", "stddeep": "stdlib"}
+         "stdmod": "stdlib", "stddeep": "stdlib", "pkginit": "local", "pkgimpl": "local", "pkgconsts": "local",
+         "reexp": "local", "sdev": "local", "sprod": "local", "plugv1": "local", "plugv2": "local", "pinit1": "local",
+         "pinit2": "local"}
+# symbolic links: name -> (path of the link, kind, {choice: what it points to (relative to the link's directory)})
+LINKS = {"settings": ("settings.py", "file", {"dev": "impl/settings_dev.py", "prod": "impl/settings_prod.py"}),
+         "plugins": ("plugins", "dir", {"v1": "plugins_v1", "v2": "plugins_v2"})}
+LINK0 = {"settings": "dev", "plugins": "v1"}
+# modules found THROUGH a link: name -> (origin = path through the link, link name, {choice: role read})
+LINKMODS = {"settings": ("settings.py", "settings", {"dev": "sdev", "prod": "sprod"}),
+            "plugins": ("plugins/__init__.py", "plugins", {"v1": "pinit1", "v2": "pinit2"}),
+            "plugins.core": ("plugins/core.py", "plugins", {"v1": "plugv1", "v2": "plugv2"})}
+ALL_MODS = list(ROLE_OF_MOD) + list(LINKMODS)
 EDIT_OPS = {"editTarget": "target", "editDirect": "direct", "editTransitive": "trans"}
-STATE0 = {r: 0 for r in ROLES}
+STATE0 = {**{r: 0 for r in ROLES}, **{"link:" + k: v for k, v in LINK0.items()}}
+
+
+def lkey(name):
+    return "link:" + name
+
+
+def role_of(mod, state):
+    """The role (file of the family) whose content is read when module `mod` is opened in `state`."""
+    if mod in ROLE_OF_MOD:
+        return ROLE_OF_MOD[mod]
+    origin, link, choices = LINKMODS[mod]
+    return choices[state[lkey(link)]]
+
+
+def package_of(path):
+    """Dotted package a file at project-relative `path` belongs to (for relative imports)."""
+    for root in (SP_DIR + "/", STD_DIR + "/"):
+        if path.startswith(root):
+            path = path[len(root):]
+    parts = path[:-3].split("/")
+    return ".".join(parts[:-1] if parts[-1] != "__init__" else parts[:-1])
 
 
 def src_of(role, i):
@@ -196,7 +330,7 @@ def src_md5(role, i):
 
 # hashed = (follow level, excluded imports, excluded names); other = un-hashed options.
 # `via`: how the hashed options reach rattr — short / long command-line flags, or pyproject.toml.
-def _opt(follow=1, F=(), x=(), other=(), via="short", legacy_args=None):
+def _opt(follow=1, F=(), x=(), other=(), via="short", legacy_args=None, toml_extra=""):
     F, x, other = list(F), list(x), list(other)
     if via == "toml":
         args = []
@@ -212,10 +346,21 @@ def _opt(follow=1, F=(), x=(), other=(), via="short", legacy_args=None):
             args += [F_, p_]
         for p_ in x:
             args += [x_, p_]
-        toml = ""
+        toml = ("[tool.rattr]\n" if toml_extra else "")
+    toml += toml_extra
     if legacy_args is not None:
         args = list(legacy_args)
-    return {"args": args + other, "follow": follow, "F": F, "x": x, "other": " ".join(other), "via": via, "toml": toml}
+    # the strictness in force (un-hashed): None = no limit, "strict", or the threshold N
+    limit = None
+    if "--strict" in other or "strict = true" in toml_extra:
+        limit = "strict"
+    elif "--threshold" in other:
+        limit = int(other[other.index("--threshold") + 1])
+    elif "threshold" in toml_extra:
+        limit = int(re.search(r"threshold = (\d+)", toml_extra).group(1))
+    okey = " ".join(other) + (("|toml:" + toml_extra.strip().replace("\n", ";")) if toml_extra else "")
+    return {"args": args + other, "follow": follow, "F": F, "x": x, "other": okey, "via": via, "toml": toml,
+            "limit": limit}
 
 
 OPTIONS = [
@@ -297,6 +442,41 @@ def _add_groups():
 
 
 _add_groups()
+N_R2_OPTIONS = len(OPTIONS)
+# ---- round 3: every strictness setting (un-hashed), through the command line and pyproject.toml
+STRICT_OPT = {}          # limit -> option index (command line); ("toml", limit) -> option index
+OPTIONS.append(_opt(other=["--strict"]))
+STRICT_OPT["strict"] = len(OPTIONS) - 1
+STRICT_OPT[1] = 5
+for _n in (2, 3, 4, 5, 6):
+    OPTIONS.append(_opt(other=["--threshold", str(_n)]))
+    STRICT_OPT[_n] = len(OPTIONS) - 1
+OPTIONS.append(_opt(other=["--threshold", "0"]))
+STRICT_OPT[0] = len(OPTIONS) - 1
+OPTIONS.append(_opt(toml_extra="strict = true\n"))
+STRICT_OPT[("toml", "strict")] = len(OPTIONS) - 1
+for _n in (1, 2, 4):
+    OPTIONS.append(_opt(toml_extra="threshold = %d\n" % _n))
+    STRICT_OPT[("toml", _n)] = len(OPTIONS) - 1
+OPTIONS.append(_opt(follow=2, other=["--strict"]))
+STRICT_OPT[("follow2", "strict")] = len(OPTIONS) - 1
+OPTIONS.append(_opt(follow=0, other=["--strict"], via="long"))
+STRICT_OPT[("follow0", "strict")] = len(OPTIONS) - 1
+# exclusion by the origin of a package / of a path through a link / of a link's target
+PATH_OPT = {}
+for _f in (1, 2):
+    for _pat in ([r".*/pkg/__init__\.py"], ["pkg"], [r"pkg\..*"], [r".*/settings\.py"], [r".*/impl/settings_dev\.py"],
+                 [r".*/plugins/.*"], [r".*/plugins_v1/.*"]):
+        OPTIONS.append(_opt(follow=_f, F=_pat))
+        PATH_OPT[(_f, _pat[0])] = len(OPTIONS) - 1
+
+
+def limit_json(o):
+    return "strict" if o["limit"] == "strict" else int(o["limit"] or 0)
+
+
+def limit_class(o):
+    return "none" if o["limit"] in (None, 0) else ("strict" if o["limit"] == "strict" else "threshold")
 LEVEL_OPT = {f: next(i for i, o in enumerate(OPTIONS) if o["follow"] == f and not o["F"] and not o["x"]
                      and not o["other"] and o["via"] == "short") for f in (0, 1, 2, 3)}
 
@@ -337,20 +517,38 @@ def is_stdlib_name(name):
 EXTERNAL = {"math": (stdlib_origin("math"), False), "sys": ("built-in", False)}
 
 
-def scan_imports(src):
+def longest_module(dotted):
+    """`find_module_name_and_spec`, read independently: the longest right-stripped prefix of a dotted
+    name that is a module of the family (or one of the external ones)."""
+    parts = dotted.split(".")
+    for k in range(len(parts), 0, -1):
+        m = ".".join(parts[:k])
+        if m in ROLE_OF_MOD or m in LINKMODS or m in EXTERNAL:
+            return m
+    return None
+
+
+def scan_imports(src, path=""):
     """My own reading of the `Import` symbols of a file's root context: [(module named in the
-    statement, module the symbol belongs to | None)] in order of appearance (plain `import M` and
-    `from M import a, b` at module level; no packages in this family, so the module is `M` itself)."""
+    statement, module the symbol belongs to | None)] in order of appearance (plain `import M`,
+    `from M import a, b` and relative `from .M import a` at module level; the symbol of
+    `from M import a` belongs to `M.a` when that is a module, else to `M`, else to the longest
+    prefix of `M` that is one)."""
     import ast as _ast
 
     out = []
     for node in _ast.parse(src).body:
         if isinstance(node, _ast.Import):
             for a in node.names:
-                out.append((a.name, a.name if (a.name in ROLE_OF_MOD or a.name in EXTERNAL) else None))
-        elif isinstance(node, _ast.ImportFrom) and node.level == 0:
-            for _ in node.names:
-                out.append((node.module, node.module if (node.module in ROLE_OF_MOD or node.module in EXTERNAL) else None))
+                out.append((a.name, longest_module(a.name)))
+        elif isinstance(node, _ast.ImportFrom):
+            mod = node.module
+            if node.level:
+                base = package_of(path).split(".") if package_of(path) else []
+                base = base[:len(base) - (node.level - 1)] if node.level > 1 else base
+                mod = ".".join(base + ([node.module] if node.module else []))
+            for a in node.names:
+                out.append((mod, longest_module(mod + "." + a.name)))
     return out
 
 
@@ -359,15 +557,27 @@ _SCAN = {}
 
 def imports_of(role, i):
     if (role, i) not in _SCAN:
-        _SCAN[(role, i)] = scan_imports(src_of(role, i))
+        _SCAN[(role, i)] = scan_imports(src_of(role, i), FILES[role][0])
     return _SCAN[(role, i)]
 
 
 def origin_rel(mod):
-    """Origin of a module name: project-relative for the family's files."""
+    """Origin of a module name: project-relative for the family's files (for a module behind a
+    symbolic link: the path THROUGH the link, which is what the search path yields)."""
     if mod in ROLE_OF_MOD:
         return FILES[ROLE_OF_MOD[mod]][0]
+    if mod in LINKMODS:
+        return LINKMODS[mod][0]
     return EXTERNAL[mod][0]
+
+
+def known_mod(mod):
+    return mod in ROLE_OF_MOD or mod in LINKMODS or mod in EXTERNAL
+
+
+def names_right(mod):
+    parts = mod.split(".")
+    return [".".join(parts[:k]) for k in range(len(parts), 0, -1)]
 
 
 def permanent_patterns():
@@ -377,18 +587,31 @@ def permanent_patterns():
     return sorted(pats) or ["packages?\\.rattr", "packages?\\.rattr\\..*", "rattr", "rattr\\..*"]
 
 
+def abs_origin(org, d):
+    return org if os.path.isabs(org) or org == "built-in" else (d + "/" + org if d else "/proj/" + org)
+
+
 def excluded_mod(o, mod, d=""):
     """My own reading of is_in_import_blacklist: stdlib names are never excluded; otherwise a user or
-    permanent pattern fully matches the module's origin or its name."""
+    permanent pattern fully matches the module's name or the origin of the module or of one of its
+    parent packages."""
     if not mod:
         return True
     if is_stdlib_name(mod):
         return False
     texts = [mod]
-    if mod in ROLE_OF_MOD or mod in EXTERNAL:
-        org = origin_rel(mod)
-        texts.append(org if os.path.isabs(org) or org == "built-in" else (d + "/" + org if d else "/proj/" + org))
+    for m in names_right(mod):
+        if known_mod(m) and origin_rel(m):
+            texts.append(abs_origin(origin_rel(m), d))
     return any(re.fullmatch(p, t) for p in list(o["F"]) + permanent_patterns() for t in texts)
+
+
+def mod_class(mod):
+    if mod in ROLE_OF_MOD:
+        return CLASS[ROLE_OF_MOD[mod]]
+    if mod in LINKMODS:
+        return "local"
+    return "stdlib" if is_stdlib_name(mod) else "local"
 
 
 def expected_analysis(state, d=""):
@@ -396,11 +619,6 @@ def expected_analysis(state, d=""):
     (analysed module names in order, recorded origins) or None when the import stage does not complete."""
     o = OPTIONS[state["opt"]]
     follow = o["follow"]
-
-    def cls(mod):
-        if mod in ROLE_OF_MOD:
-            return CLASS[ROLE_OF_MOD[mod]]
-        return "stdlib" if is_stdlib_name(mod) else "local"
 
     contexts = [imports_of("target", state["target"])]
     for stmt, tgt in contexts[0]:
@@ -415,13 +633,13 @@ def expected_analysis(state, d=""):
         org = origin_rel(mod)
         if org in seen or excluded_mod(o, mod, d):
             continue
-        if cls(mod) == "pip" and follow < 2:
+        if mod_class(mod) == "pip" and follow < 2:
             continue
-        if cls(mod) == "stdlib" and follow < 3:
+        if mod_class(mod) == "stdlib" and follow < 3:
             continue
-        if mod not in ROLE_OF_MOD:
+        if mod not in ROLE_OF_MOD and mod not in LINKMODS:
             return None                      # crash: not a source file
-        role = ROLE_OF_MOD[mod]
+        role = role_of(mod, state)
         syms = imports_of(role, state[role])
         for s2, t2 in syms:
             if t2 is None and not excluded_mod(o, s2, d):
@@ -464,24 +682,34 @@ def random_history(rng, maxlen):
     return close(ops)
 
 
-SMALL = {"target": [0, 2, 6, 7, 8, 9], "direct": [0, 1, 2, 3, 6, 7, 8], "trans": [0, 1, 2, 5]}
+SMALL = {"target": [0, 2, 6, 7, 8, 9, 10, 11, 12, 13, 14, 15, 16, 17], "direct": [0, 1, 2, 3, 6, 7, 8, 9, 10, 11, 12, 13],
+         "trans": [0, 1, 2, 5]}
 
 
 def random_history2(rng, maxlen):
     """Generalised family: any file of any class is edited, any option set of OPTIONS (follow 0..3,
-    the near-collision groups, every delivery channel) is switched to, in random order."""
+    the near-collision groups, every delivery channel, every strictness setting) is switched to, links
+    are re-pointed, files edited through links, the cache file damaged — in random order."""
     n = rng.randint(3, maxlen)
-    ops = [["edit", "target", rng.choice([6, 6, 8, 9])], ["changeOption", rng.randrange(len(OPTIONS))]]
+    ops = [["edit", "target", rng.choice([6, 6, 8, 9, 13, 16, 10, 11])], ["changeOption", rng.randrange(len(OPTIONS))]]
     for _ in range(n):
         r = rng.random()
-        if r < 0.36:
+        if r < 0.34:
             ops.append(["runWithCache"])
-        elif r < 0.40:
+        elif r < 0.38:
             ops.append(["forceRefresh"])
-        elif r < 0.75:
+        elif r < 0.66:
             role = rng.choice(ROLES)
             ops.append(["edit", role, rng.choice(SMALL.get(role) or list(range(len(FILES[role][1]))))])
-        elif r < 0.87:
+        elif r < 0.72:
+            name = rng.choice(sorted(LINKS))
+            ops.append(["relink", name, rng.choice(sorted(LINKS[name][2]))])
+        elif r < 0.75:
+            mod = rng.choice(["settings", "plugins.core"])
+            ops.append(["editlink", mod, rng.randrange(2)])
+        elif r < 0.80:
+            ops += [["damage", rng.choice(DAMAGE_KINDS)], ["runWithCache"]]
+        elif r < 0.89:
             ops.append(["changeOption", rng.randrange(len(OPTIONS))])
         else:
             # a near-collision: another member of a group the current... any group
@@ -558,6 +786,123 @@ def option_pair_histories():
     return out
 
 
+def defless_histories(tier="quick"):
+    """Round 3: a module WITHOUT a function / class of its own (re-export-only `__init__`, import-only
+    module, empty module, constants-only module) lies on the path to the module that is edited — as
+    the target's direct import, one level down, in site-packages, among the stdlib-named modules —
+    and the intermediate module itself changes between its def-less and def-ful variants."""
+    out = []
+    full = tier != "quick"
+    # target -> pkg/__init__ (variant) -> pkg/impl: edit impl, edit consts behind a second def-less hop
+    for tgt, inits in ((10, (0, 7, 5, 4, 6) if full else (0, 7, 5)), (12, (0, 3, 8) if full else (3, 8)),
+                       (13, (0, 5) if full else (5,))):
+        h = [["edit", "target", tgt]]
+        for k, iv in enumerate(inits):
+            h += [["edit", "pkginit", iv], ["runWithCache"]] + ([["runWithCache"]] if k == 0 or full else []) + \
+                 [["edit", "pkgimpl", (k + 1) % 2], ["runWithCache"]]
+        if tgt == 10 or full:
+            h += [["edit", "pkginit", 5], ["edit", "pkgimpl", 3], ["runWithCache"], ["edit", "pkgconsts", 2], ["runWithCache"],
+                  ["edit", "trans", 1], ["runWithCache"], ["edit", "pkgconsts", 1], ["runWithCache"], ["runWithCache"]]
+        out.append(h)
+    # empty / constants-only __init__: nothing behind it is a dependency
+    out.append([["edit", "target", 10], ["edit", "pkginit", 0], ["runWithCache"], ["edit", "pkginit", 1], ["runWithCache"],
+                ["edit", "pkgimpl", 1], ["runWithCache"], ["edit", "pkginit", 2], ["runWithCache"], ["edit", "pkgimpl", 0],
+                ["runWithCache"], ["edit", "pkginit", 0], ["runWithCache"]])
+    # a plain module that only imports; aliases; through the package
+    for rv in ((0, 1, 2, 5, 3, 4) if full else (0, 2, 3)):
+        h = [["edit", "target", 11], ["edit", "reexp", rv], ["runWithCache"], ["edit", "trans", 1],
+             ["runWithCache"], ["runWithCache"]]
+        if rv == 3:
+            h += [["edit", "pkgimpl", 1], ["runWithCache"], ["edit", "pkgimpl", 2], ["runWithCache"], ["edit", "trans", 0],
+                  ["runWithCache"]]
+        out.append(h)
+    # the def-less module one level down (in a followed import), and the followed import itself def-less
+    for dv, leaf_role in ((9, "pkgimpl"), (10, "trans"), (11, "trans"), (13, "pkgimpl")):
+        out.append([["edit", "direct", dv], ["runWithCache"], ["edit", leaf_role, 1], ["runWithCache"],
+                    ["changeOption", 1], ["runWithCache"], ["edit", leaf_role, 0], ["runWithCache"]])
+    # def-less modules of the other classes at the levels that follow them
+    for lvl in (2, 3):
+        out.append([["edit", "target", 6], ["edit", "pipmod", 5], ["edit", "stdmod", 3], ["changeOption", LEVEL_OPT[lvl]],
+                    ["runWithCache"], ["edit", "pipdeep", 1], ["runWithCache"], ["edit", "stddeep", 1],
+                    ["runWithCache"], ["edit", "pipmod", 2], ["runWithCache"], ["edit", "pipdeep", 0], ["runWithCache"]])
+    # sub-modules imported directly, the package __init__ is then not a dependency
+    out.append([["edit", "target", 17], ["runWithCache"], ["edit", "pkgconsts", 1], ["runWithCache"], ["edit", "pkginit", 4],
+                ["runWithCache"], ["edit", "pkgimpl", 4], ["runWithCache"], ["edit", "pkgconsts", 2], ["runWithCache"],
+                ["edit", "trans", 2], ["runWithCache"]])
+    return out
+
+
+def link_histories(tier="quick"):
+    """Round 3: module files / package directories that are symbolic links: re-pointed between two runs
+    (nothing else changes), edited in place through the link, the file the link no longer points to
+    edited; as the target's direct import and one level down; the link path / the link's target named
+    by an exclusion pattern."""
+    out = []
+    out.append([["edit", "target", 14], ["runWithCache"], ["runWithCache"], ["relink", "settings", "prod"], ["runWithCache"],
+                ["runWithCache"], ["edit", "sdev", 1], ["runWithCache"], ["editlink", "settings", 1], ["runWithCache"],
+                ["relink", "settings", "dev"], ["edit", "sdev", 2], ["runWithCache"], ["edit", "trans", 1],
+                ["runWithCache"], ["relink", "settings", "prod"], ["runWithCache"], ["edit", "trans", 0], ["runWithCache"]])
+    out.append([["edit", "target", 15], ["runWithCache"], ["runWithCache"], ["relink", "plugins", "v2"], ["runWithCache"],
+                ["runWithCache"], ["edit", "plugv1", 1], ["runWithCache"], ["editlink", "plugins.core", 1], ["runWithCache"],
+                ["relink", "plugins", "v1"], ["runWithCache"]])
+    out.append([["edit", "target", 16], ["runWithCache"], ["relink", "plugins", "v2"], ["runWithCache"],
+                ["relink", "settings", "prod"], ["runWithCache"], ["relink", "plugins", "v1"], ["relink", "settings", "dev"],
+                ["runWithCache"], ["edit", "sprod", 1], ["edit", "plugv2", 1], ["runWithCache"]])
+    for oi in ((0, LEVEL_OPT[2], LEVEL_OPT[0]) if tier != "quick" else (0,)):
+        out.append([["edit", "direct", 12], ["changeOption", oi], ["runWithCache"], ["relink", "settings", "prod"],
+                    ["runWithCache"], ["editlink", "settings", 1], ["runWithCache"],
+                    ["relink", "settings", "dev"], ["runWithCache"]])
+    # exclusion by the path through the link (excluded: not a dependency, whichever way it points) and by the
+    # link's target (not what the module locator yields: not excluded)
+    out.append([["edit", "target", 16], ["changeOption", PATH_OPT[(1, r".*/settings\.py")]], ["runWithCache"],
+                ["relink", "settings", "prod"], ["runWithCache"], ["changeOption", PATH_OPT[(1, r".*/impl/settings_dev\.py")]],
+                ["runWithCache"], ["relink", "settings", "dev"], ["runWithCache"],
+                ["changeOption", PATH_OPT[(1, r".*/plugins_v1/.*")]], ["runWithCache"], ["relink", "plugins", "v2"],
+                ["runWithCache"], ["changeOption", PATH_OPT[(1, r".*/plugins/.*")]], ["runWithCache"],
+                ["relink", "plugins", "v1"], ["runWithCache"]])
+    return out
+
+
+PLANNED_BADNESS = {18: 0, 0: 0, 3: 2, 19: 4}
+
+
+def strict_damage_histories(rng, tier):
+    """Round 3: damage to the cache file x every strictness setting. A run on a damaged cache file must
+    be the run without a cache file (exit status, output, cache rewritten), and the run after it must
+    find a good cache — for a clean target and for targets whose own badness is at / around the
+    threshold (the thresholds are chosen around the badness observed by `probe_badness`)."""
+    out = []
+    # target variant, its own badness by construction (checked against the probe in run()), limits
+    plans = [(18, ["strict", ("toml", "strict"), 1, 0, ("follow0", "strict")]),
+             (0, ["strict", ("follow2", "strict"), ("toml", 1)][0 if tier != "quick" else 1:]),
+             (3, [1, 2, 3, ("toml", 2), "strict", 0]),
+             (19, [3, 4, 5, ("toml", 4)] if tier != "quick" else [3, 4, ("toml", 4)])]
+    kinds = list(DAMAGE_KINDS)
+    rng.shuffle(kinds)
+    k = 0
+    for tgt, limits in plans:
+        b = PLANNED_BADNESS[tgt]
+        for lim in limits:
+            n = lim[1] if isinstance(lim, tuple) else lim
+            fatal = (b > 0) if n == "strict" else (n != 0 and b > n)
+            # where the from-scratch run is fatal anyway one damaged run suffices (nothing may change)
+            per = 1 if fatal else (2 if tier == "quick" else len(kinds))
+            h = [["edit", "target", tgt], ["changeOption", STRICT_OPT[lim]], ["runWithCache"]]
+            for j in range(per):
+                kind = kinds[k % len(kinds)]
+                k += 1
+                h += [["damage", kind], ["runWithCache"]]
+                if j == 0 and not fatal:
+                    h += [["runWithCache"]]
+            out.append(h)
+    # damage, then a DIFFERENT strictness than the one the cache was written under; damage + -r
+    out.append([["edit", "target", 3], ["runWithCache"], ["damage", "truncate-half"], ["changeOption", STRICT_OPT[2]],
+                ["runWithCache"], ["runWithCache"], ["damage", "null"], ["changeOption", STRICT_OPT[1]], ["runWithCache"],
+                ["forceRefresh"], ["changeOption", STRICT_OPT[3]], ["damage", "wrong-type"], ["forceRefresh"],
+                ["runWithCache"]])
+    return out
+
+
 def close(ops):
     """Drop trailing ops nobody observes, end with a run."""
     ops = [list(o) for o in ops]
@@ -624,7 +969,11 @@ def exhaustive_histories(maxlen):
 
 # ------------------------------------------------------------------ implementation side (CLI)
 
+CLI_CALLS = [0]
+
+
 def cli(args, cwd, timeout=120):
+    CLI_CALLS[0] += 1
     env = dict(os.environ)
     env["PYTHONHASHSEED"] = "0"
     # the fake site-packages / stdlib directories of the project (if it has them) go on the search
@@ -678,6 +1027,71 @@ def write_role(d, role, i):
     f.write_text(src_of(role, i))
 
 
+def set_link(d, name, choice):
+    """(Re-)point the symbolic link `name` (`ln -sfn`)."""
+    path, _kind, choices = LINKS[name]
+    lp = d / path
+    if lp.is_symlink() or lp.exists():
+        lp.unlink()
+    os.symlink(choices[choice], lp)
+
+
+def populate(d, state=None):
+    """Write every file of the family (variant 0 unless `state` says otherwise) and create the links."""
+    state = state or STATE0
+    for role in ROLES:
+        write_role(d, role, state[role])
+    for name in LINKS:
+        set_link(d, name, state[lkey(name)])
+
+
+# What may happen to the cache file behind rattr's back. kind -> (bytes-or-None from the present content,
+# class of the model's `Damage`). Every kind leaves something that does NOT read back as a document.
+def _truncate(frac):
+    def f(good):
+        g = (good or b'{"version": "x"}').rstrip()
+        return g[:max(1, min(len(g) - 1, int(len(g) * frac)))]
+    return f
+
+
+def _wrong_type(good):
+    try:
+        doc = json.loads(good)
+        doc["imports"] = 1
+    except Exception:
+        doc = {"imports": 1}
+    return json.dumps(doc, indent=4).encode()
+
+
+DAMAGE = {
+    "removed": (lambda good: None, "removed"),
+    "empty": (lambda good: b"", "notJson"),
+    "truncate-1": (lambda good: (good or b"{")[:1], "notJson"),
+    "truncate-half": (_truncate(0.5), "notJson"),
+    "truncate-last": (_truncate(1.0), "notJson"),
+    "not-json": (lambda good: (good or b'{"a": 1}').replace(b":", b"=", 1), "notJson"),
+    "null": (lambda good: b"null", "raises:TypeError"),
+    "number": (lambda good: b"17", "raises:TypeError"),
+    "wrong-type": (_wrong_type, "raises:ClassValidationError"),
+    "filepath-null": (lambda good: b'{"filepath": null}', "raises:ClassValidationError"),
+    "string-naming-field": (lambda good: b'"version"', "raises:ClassValidationError"),
+    "not-utf8": (lambda good: b"\xff\xfe" + (good or b"{}"), "raises:UnicodeDecodeError"),
+}
+DAMAGE_KINDS = sorted(DAMAGE)
+
+
+def damage_file(cache: Path, kind):
+    try:
+        good = cache.read_bytes()
+    except FileNotFoundError:
+        good = None
+    b = DAMAGE[kind][0](good)
+    if b is None:
+        cache.unlink(missing_ok=True)
+    else:
+        cache.write_bytes(b)
+
+
 def pattern_change_kind(a, b):
     """Syntactic class of the difference between two pattern lists."""
     if list(a) == list(b):
@@ -695,13 +1109,17 @@ def changes_since(written, state):
     """What differs syntactically between the state the cache on disk was written in and now."""
     if written is None:
         return ["no-cache-written"]
+    if isinstance(written, str):
+        return [written]                     # "damaged:<kind>"
     # only files that are dependencies by my own reading of the follower, then or now (an edit of a
     # file nobody reads is not a change)
-    deps = {"target"}
+    deps, dep_links = {"target"}, set()
     for st in (written, state):
         exp = expected_analysis(st)
-        deps |= set(ROLES) if exp is None else {ROLE_OF_MOD[m] for m in exp[0]}
+        deps |= set(ROLES) if exp is None else {role_of(m, st) for m in exp[0]}
+        dep_links |= set(LINKS) if exp is None else {LINKMODS[m][1] for m in exp[0] if m in LINKMODS}
     out = [f"edit:{r}" for r in ROLES if written[r] != state[r] and r in deps]
+    out += [f"relink:{n}" for n in LINKS if written[lkey(n)] != state[lkey(n)] and n in dep_links]
     a, b = OPTIONS[written["opt"]], OPTIONS[state["opt"]]
     if a["follow"] != b["follow"]:
         out.append(f"opt:follow:{a['follow']}->{b['follow']}")
@@ -721,21 +1139,68 @@ def normalise(op):
     return list(op)
 
 
-def run_history(ops, init_disk=None):
+_BADNESS = {}
+_BADNESS_LOCK = __import__("threading").Lock()
+
+
+def content_key(state):
+    """Everything a from-scratch run's own badness can depend on (not the un-hashed options)."""
+    return json.dumps([[state[r] for r in ROLES], [state[lkey(n)] for n in LINKS], optkey(OPTIONS[state["opt"]])])
+
+
+def probe_badness(state, d):
+    """`State.badness` of a from-scratch run in this state, observed from outside: the `--strict` run's
+    'exceeded allowed badness (b > 0)' (exit 0 = badness 0). None when the strict run ends otherwise."""
+    k = content_key(state)
+    with _BADNESS_LOCK:
+        return _probe_badness(k, state, d)
+
+
+def _probe_badness(k, state, d):
+    if k not in _BADNESS:
+        o = OPTIONS[state["opt"]]
+        hashed = _opt(follow=o["follow"], F=o["F"], x=o["x"])
+        (d / "pyproject.toml").write_text("")
+        r = cli(["-w", "all", *hashed["args"], "--strict", "-o", "silent", "target.py"], d)
+        (d / "pyproject.toml").write_text(o["toml"])
+        m = re.search(r"exceeded allowed badness \((\d+) > 0\)", r["err_tail"])
+        _BADNESS[k] = 0 if (r["exit"] == 0 and not r["tb"]) else (int(m.group(1)) if m else None)
+    return _BADNESS[k]
+
+
+_FRESH = {}
+PLACE = "<PROJECT>"
+
+
+def unplace(x, d):
+    """Replace the project directory's name by a placeholder in a text / in the texts of a CLI record."""
+    if x is None:
+        return None
+    if isinstance(x, str):
+        return x.replace(str(d), PLACE)
+    return {**x, "out": x["out"].replace(str(d), PLACE), "err_tail": x["err_tail"].replace(str(d), PLACE)}
+
+
+def run_history(ops, init_disk=None, probe=None):
     """Execute one history against the real CLI. Returns one record per op."""
     d = make_project("c19h_")
+    if probe is None:
+        probe = any(o[0] == "damage" for o in ops)
     try:
         state = dict(STATE0, opt=0)
-        for role in ROLES:
-            write_role(d, role, 0)
+        populate(d)
         cache = d / "cache.json"
         if init_disk is not None:
             cache.write_bytes(init_disk)
         recs = []
         written = None
         # the from-scratch reference run is repeated for every run of a legacy history (which also
-        # checks that it is deterministic) and made once per distinct state in the generalised family
-        legacy = all(o[0] != "edit" and (o[0] != "changeOption" or o[1] < N_OLD_OPTIONS) for o in ops)
+        # checks that it is deterministic) ...
+        legacy = all(o[0] in ("runWithCache", "forceRefresh", *EDIT_OPS) or (o[0] == "changeOption" and o[1] < N_OLD_OPTIONS)
+                     for o in ops)
+        # ... repeated in the hand-written corpus and in the histories with big files; shared elsewhere
+        repeat_fresh = legacy and (any(close(h_) == [list(o_) for o_ in ops] for h_ in CORPUS)
+                                   or any(o[0] in EDIT_OPS and o[1] in BIG[EDIT_OPS[o[0]]] for o in ops))
         fresh_memo = {}
         for op0 in ops:
             op = normalise(op0)
@@ -743,6 +1208,20 @@ def run_history(ops, init_disk=None):
             if name == "edit":
                 state[op[1]] = op[2]
                 write_role(d, op[1], op[2])
+                recs.append({"op": op0})
+            elif name == "editlink":
+                # an in-place edit THROUGH the link: the file the module name currently leads to
+                role = role_of(op[1], state)
+                state[role] = op[2]
+                (d / origin_rel(op[1])).write_text(src_of(role, op[2]))
+                recs.append({"op": op0, "role": role})
+            elif name == "relink":
+                state[lkey(op[1])] = op[2]
+                set_link(d, op[1], op[2])
+                recs.append({"op": op0})
+            elif name == "damage":
+                damage_file(cache, op[1])
+                written = "damaged:" + op[1]
                 recs.append({"op": op0})
             elif name == "changeOption":
                 state["opt"] = op[1]
@@ -752,16 +1231,25 @@ def run_history(ops, init_disk=None):
                 o = OPTIONS[state["opt"]]
                 base = ["-w", "all", *o["args"]]
                 fkey = json.dumps(state, sort_keys=True)
-                if legacy or fkey not in fresh_memo:
-                    fresh_memo[fkey] = cli([*base, "-o", "cacheable", "target.py"], d)
+                if legacy and repeat_fresh:
+                    fresh_memo[fkey] = unplace(cli([*base, "-o", "cacheable", "target.py"], d), d)
+                elif fkey not in fresh_memo:
+                    # one from-scratch run per distinct state of the whole check (the project directory
+                    # is the only thing that differs between two projects in the same state: its name is
+                    # replaced by a placeholder in every text compared)
+                    if fkey not in _FRESH:
+                        _FRESH[fkey] = unplace(cli([*base, "-o", "cacheable", "target.py"], d), d)
+                    fresh_memo[fkey] = _FRESH[fkey]
                 fresh = fresh_memo[fkey]
-                before, st_before = read_or_none(cache), stat_of(cache)
+                before, st_before = unplace(read_or_none(cache), d), stat_of(cache)
                 extra = ["-r"] if name == "forceRefresh" else []
-                r = cli([*base, *extra, "--cache-file", "cache.json", "-o", "silent", "target.py"], d)
-                after, st_after = read_or_none(cache), stat_of(cache)
+                r = unplace(cli([*base, *extra, "--cache-file", "cache.json", "-o", "cacheable", "target.py"], d), d)
+                after, st_after = unplace(read_or_none(cache), d), stat_of(cache)
                 rec = {"op": op0, "state": dict(state), "fresh": fresh, "run": r, "before": before,
                        "after": after, "rewritten": st_before != st_after, "dir": str(d),
                        "since_write": changes_since(written, state)}
+                if probe:
+                    rec["badness"] = probe_badness(state, d)
                 if st_before != st_after and after is not None:
                     written = dict(state)
                 elif after is None:
@@ -795,8 +1283,27 @@ def judge_run(rec):
         return [("__skip__", "from-scratch run crashed: " + str(f["exc"]))]
     fresh_ok = f["exit"] == 0
     fdoc = strip_nl(f["out"]) if fresh_ok else None
+    since = rec.get("since_write") or []
+    damaged = next((c for c in since if c.startswith("damaged:")), None)
     if r["tb"]:
-        return [(f"run-crash:{r['exc']}", r["err_tail"])]
+        return [(f"run-crash:{r['exc']}" + (";" + damaged if damaged else ""), r["err_tail"])]
+    if damaged and name != "forceRefresh":
+        # "missing, truncated, corrupted or of the wrong shape is treated as stale": never trusted, and
+        # the run is the run without a cache file — same exit status, same output, cache rewritten —
+        # under whatever strictness option is in force (named syntactically in the signature)
+        ctx = ";damage=" + DAMAGE[damaged.split(":", 1)[1]][1] + ";strictness=" + limit_class(OPTIONS[rec["state"]["opt"]])
+        if r["hit"]:
+            return [("damaged-cache-trusted" + ctx, damaged)]
+        if r["exit"] != f["exit"]:
+            out.append(("run-on-damaged-cache-differs-from-run-without-cache:exit-status" + ctx,
+                        f"{damaged}: exit {r['exit']} ({r['err_tail']}) vs {f['exit']} without a cache file"))
+        elif r["out"] != f["out"]:
+            out.append(("run-on-damaged-cache-differs-from-run-without-cache:stdout" + ctx, damaged))
+        elif fresh_ok and (rec["after"] != fdoc or not rec["rewritten"]):
+            out.append(("run-on-damaged-cache-differs-from-run-without-cache:cache-not-rewritten" + ctx, damaged))
+        if not fresh_ok and (rec["rewritten"] or rec["after"] != rec["before"]):
+            out.append(("other:failed-run-modified-the-cache-file" + ctx, damaged))
+        return out
     if r["hit"]:
         if name == "forceRefresh":
             out.append(("force-refresh-hit", "-r answered up-to-date"))
@@ -806,7 +1313,6 @@ def judge_run(rec):
             out.append(("other:hit-but-cache-file-modified", ""))
         # WHAT changed since the cache on disk was written (syntactic; a hit with nothing changed but
         # an un-hashed option is the known strictness finding, anything else is a different bug)
-        since = rec.get("since_write") or []
         ctx = "" if set(since) <= {"opt:unhashed"} else \
             ";changed=" + ",".join(since) + ";follow=" + str(OPTIONS[rec["state"]["opt"]]["follow"])
         if not fresh_ok:
@@ -819,6 +1325,8 @@ def judge_run(rec):
                 out.append(("other:cached-run-ok-but-fresh-run-fatal", f["err_tail"]))
             elif rec["after"] != fdoc:
                 out.append(("miss-wrote-non-fresh-cache:" + diff_fields(fdoc, rec["after"] or "null"), ""))
+            elif r["out"] != f["out"]:
+                out.append(("other:miss-printed-a-document-other-than-the-from-scratch-one", ""))
             if not rec["rewritten"]:
                 out.append(("other:miss-but-cache-file-not-written", ""))
         else:
@@ -841,7 +1349,10 @@ def impl_out(rec):
 # ------------------------------------------------------------------ model side for histories
 
 def norm_path(p, d):
-    return p[len(d) + 1:] if p.startswith(d + "/") else p
+    for pre in (d + "/", PLACE + "/"):
+        if p.startswith(pre):
+            return p[len(pre):]
+    return p
 
 
 def results_digest(doc):
@@ -883,8 +1394,8 @@ def static_payload(d):
     isort's verdicts, `re.fullmatch` verdicts (patterns x names / origins; origins are matched by their
     real absolute path and keyed by the project-relative one), my scan of every variant's imports."""
     facts = live_facts()
-    names = list(ROLE_OF_MOD) + list(EXTERNAL) + ["nosuch"]
-    mods = [{"name": m, "origin": FILES[r][0], "readable": True} for m, r in ROLE_OF_MOD.items()]
+    names = list(ALL_MODS) + list(EXTERNAL) + ["nosuch"]
+    mods = [{"name": m, "origin": origin_rel(m), "readable": True} for m in ALL_MODS]
     mods += [{"name": m, "origin": org, "readable": rd} for m, (org, rd) in EXTERNAL.items() if org]
     texts = [(n, n) for n in names]
     for m in mods:
@@ -893,10 +1404,14 @@ def static_payload(d):
     matches = [[p_, key] for p_ in all_patterns() for key, real in texts if fullmatch(p_, real)]
     rows, total = [], 0
     for role in ROLES:
+        # the origins under which this file can be read: its own path and every link path leading to it
+        origins = [FILES[role][0]] if (role == "target" or role in MODNAME) else []
+        origins += [org for m, (org, _l, ch) in LINKMODS.items() if role in ch.values()]
         for i in range(len(FILES[role][1])):
             syms = [[a_, b_] for a_, b_ in imports_of(role, i)]
-            total += len(syms)
-            rows.append({"origin": FILES[role][0], "content": src_md5(role, i), "syms": syms})
+            total += len(syms) * max(1, len(origins))
+            for org in origins:
+                rows.append({"origin": org, "content": src_md5(role, i), "syms": syms})
     return {"mods": mods, "stdlib": [n for n in names if is_stdlib_name(n)], "matches": matches,
             "permanent": facts["permanent"], "builtins": facts["builtins"], "imports": rows, "fuel": total + 1,
             "litPrefix": facts["litPrefix"]}
@@ -906,29 +1421,63 @@ def raw_opts(o):
     return {"follow": o["follow"], "F": list(o["F"]), "x": list(o["x"])}
 
 
+def view_md5(mod, st):
+    """Content hash of what is read THROUGH the link path of a module behind a symbolic link."""
+    role = role_of(mod, st)
+    return src_md5(role, st[role])
+
+
+KEY_PATHS = [FILES[r][0] for r in ROLES] + [LINKMODS[m][0] for m in LINKMODS]
+
+
+def model_contents(st):
+    return [src_md5(r, st[r]) for r in ROLES] + [view_md5(m, st) for m in LINKMODS]
+
+
 def model_key(st):
     o = OPTIONS[st["opt"]]
-    return [src_md5(r, st[r]) for r in ROLES] + [optkey(o), o["other"]]
+    return model_contents(st) + [optkey(o), o["other"]]
+
+
+def link_pairs(st, name=None):
+    return [[org, FILES[ch[st[lkey(l)]]][0]] for m, (org, l, ch) in LINKMODS.items() if name in (None, l)]
 
 
 def history_payload(ops, recs, version):
+    """The op sequence for the Lean machine `CacheRun.stepX` (op `cache_x_history`): in-place edits of
+    real files, re-pointed links, option changes (strictness included), damage to the cache file,
+    runs. The only facts taken from the from-scratch runs: the results digest, and either the
+    run's own badness (then the model decides fatal-or-not under every strictness setting itself) or
+    whether it was fatal for a reason other than the import stage."""
     d = next((r["dir"] for r in recs if "dir" in r), "/nonexistent")
     files = [[FILES[r][0], src_md5(r, 0)] for r in ROLES]
     for m, (org, _) in EXTERNAL.items():
         if org and os.path.isfile(org):
             files.append([org, md5(Path(org).read_bytes())])
     mops, rows, seen = [], [], {}
+    st = dict(STATE0, opt=0)
     for op0, rec in zip(ops, recs):
         op = normalise(op0)
         name = op[0]
         if name == "edit":
-            mops.append({"op": "edit", "p": FILES[op[1]][0], "c": src_md5(op[1], op[2])})
+            st[op[1]] = op[2]
+            mops.append({"op": "write", "p": FILES[op[1]][0], "c": src_md5(op[1], op[2])})
+        elif name == "editlink":
+            role = role_of(op[1], st)
+            st[role] = op[2]
+            mops.append({"op": "write", "p": FILES[role][0], "c": src_md5(role, op[2])})
+        elif name == "relink":
+            st[lkey(op[1])] = op[2]
+            mops.append({"op": "relink", "ps": link_pairs(st, op[1])})
+        elif name == "damage":
+            mops.append({"op": "damage", "d": DAMAGE[op[1]][1]})
         elif name == "changeOption":
+            st["opt"] = op[1]
             o = OPTIONS[op[1]]
             mops.append({"op": "setOptions", "o": raw_opts(o), "x": o["other"]})
         else:
             mops.append({"op": name})
-            st = rec["state"]
+            st = dict(rec["state"])
             key = model_key(st)
             f = rec["fresh"]
             fails = f["exit"] != 0
@@ -941,8 +1490,10 @@ def history_payload(ops, recs, version):
             # `fails` of the table = fatal for a reason OTHER than the import stage (which the model
             # decides itself): badness over the threshold
             exp = expected_analysis(st, d)
-            row = {"key": key, "contents": key[:len(ROLES)], "opts": raw_opts(OPTIONS[st["opt"]]),
-                   "other": OPTIONS[st["opt"]]["other"], "fails": fails and exp is not None, "fresh": fresh}
+            bad = rec.get("badness")
+            row = {"key": key, "contents": model_contents(st), "opts": raw_opts(OPTIONS[st["opt"]]),
+                   "other": OPTIONS[st["opt"]]["other"], "fails": fails and exp is not None and bad is None,
+                   "fresh": fresh, "badness": bad}
             k = json.dumps(key)
             if k in seen:
                 if seen[k] != row:
@@ -950,10 +1501,20 @@ def history_payload(ops, recs, version):
             else:
                 seen[k] = row
                 rows.append(row)
+    # a row that carries the badness stands for every strictness setting: its results digest must come
+    # from a run that succeeded, if any did
+    by_content = {}
+    for row in rows:
+        if row["badness"] is not None:
+            ck = json.dumps([row["contents"], row["opts"]])
+            if ck not in by_content or by_content[ck]["fresh"] == "<fatal>":
+                by_content[ck] = row
+    rows = [r_ for r_ in rows if r_["badness"] is None] + list(by_content.values())
     return {"static": static_payload(d),
-            "init": {"target": "target.py", "files": files, "emptyHash": md5(b""), "opts": raw_opts(OPTIONS[0]),
-                     "other": "", "version": "V", "plugins": "P"},
-            "disk": "absent", "analysis": rows, "keyPaths": [FILES[r][0] for r in ROLES], "ops": mops}
+            "init": {"target": "target.py", "files": files, "links": link_pairs(STATE0), "emptyHash": md5(b""),
+                     "opts": raw_opts(OPTIONS[0]), "other": "", "version": "V", "plugins": "P"},
+            "limits": sorted([o["other"], limit_json(o)] for o in {o_["other"]: o_ for o_ in OPTIONS}.values()),
+            "disk": "absent", "analysis": rows, "keyPaths": KEY_PATHS, "ops": mops}
 
 
 def model_optkey(k):
@@ -967,6 +1528,8 @@ def real_disk_projection(text, d, version, argmap, plugins_seen):
         doc = json.loads(text)
     except Exception:
         return "malformed"
+    if not isinstance(doc, dict):
+        return "not-a-document"
     plugins_seen.add(doc.get("plugins_hash"))
     return {
         "version": "V" if doc.get("version") == version else doc.get("version"),
@@ -1205,8 +1768,13 @@ def gate_in_process(d, blobs):
         impl.reset_config(target=Path("target.py"), cache_file=Path("c.json"))
         facts = {"version": version, "args": ru.make_arguments_hash(), "plugins": ru.make_plugins_hash()}
         for b in blobs:
-            Path("c.json").write_bytes(b)
-            with impl.Tap():
+            if b is None:
+                Path("c.json").unlink(missing_ok=True)
+            else:
+                Path("c.json").write_bytes(b)
+            cfg = impl.Config()
+            before = cfg.state.badness
+            with impl.Tap() as tap:
                 o = impl.outcome_of(ru.target_cache_file_is_up_to_date, Path("target.py"), Path("c.json"))
             if o[0] == "ok":
                 outs.append({"verdict": "fresh" if o[1] is True else ("stale" if o[1] is False else f"other:{o[1]!r}")})
@@ -1214,6 +1782,10 @@ def gate_in_process(d, blobs):
                 outs.append({"verdict": "fatal"})
             else:
                 outs.append({"verdict": "crash", "err": o[1]})
+            # what the gate's own diagnostics cost: the points booked on `State.badness` (the quantity
+            # `main` compares with the threshold) and the levels of the diagnostics emitted
+            outs[-1]["_badness"] = impl.Config().state.badness - before
+            outs[-1]["_levels"] = [e["level"] for e in tap.events]
         Path("c.json").unlink(missing_ok=True)
     return facts, outs
 
@@ -1227,7 +1799,10 @@ def corruption_stream(res, tier, rng, model):
         good_bytes = (d / "cache.json").read_bytes()
         good = json.loads(good_bytes)
         cases = list(corruption_cases(good_bytes, tier, rng))
+        cases.append({"label": "absent", "shape": "missing-file", "bytes": None, "expect": "stale"})
         facts, outs = gate_in_process(d, [good_bytes] + [c["bytes"] for c in cases])
+        side = [{"badness": o_.pop("_badness", 0), "levels": o_.pop("_levels", [])} for o_ in outs]
+        side = side[1:]
         if outs[0] != {"verdict": "fresh"}:
             res.internal_errors.append({"what": "in-process gate does not accept the cache the CLI wrote",
                                         "outcome": outs[0]})
@@ -1241,13 +1816,26 @@ def corruption_stream(res, tier, rng, model):
         files += xfiles
         res.extra["unreadable_regular_files_probed"] = unreadable
         world = {"target": "target.py", "files": files, "unreadable": unreadable, "emptyHash": md5(b""), **facts}
-        mouts = model.batch([("cache_gate", {"file": classify_bytes(c["bytes"]), "world": world}) for c in cases])
-        for c, io, mo in zip(cases, outs, mouts):
+        mouts = model.batch([("cache_gate", {"file": None if c["bytes"] is None else classify_bytes(c["bytes"]),
+                                             "world": world}) for c in cases])
+        for c, io, mo, sd in zip(cases, outs, mouts, side):
             res.evaluations += 1
-            case = {"stream": "corruption", "label": c["label"], "shape": c["shape"], "project_dir": str(d),
-                    "bytes_hex": c["bytes"].hex() if len(c["bytes"]) < 4000 else None,
-                    "truncate_at": len(c["bytes"]) if c["shape"] in ("truncated", "empty-file") else None}
-            res.nontrivial.add(common.digest(c["bytes"].hex()))
+            if c["bytes"] is None:
+                case = {"stream": "corruption", "label": c["label"], "shape": c["shape"], "project_dir": str(d),
+                        "bytes_hex": None, "truncate_at": None, "absent": True}
+            else:
+                case = {"stream": "corruption", "label": c["label"], "shape": c["shape"], "project_dir": str(d),
+                        "bytes_hex": c["bytes"].hex() if len(c["bytes"]) < 4000 else None,
+                        "truncate_at": len(c["bytes"]) if c["shape"] in ("truncated", "empty-file") else None}
+            res.nontrivial.add(common.digest(c["bytes"].hex() if c["bytes"] is not None else "absent"))
+            # the gate's diagnostic and its cost: model (`CacheRun.gateDiag`, levels of the code) vs real
+            if "__error__" not in mo and io["verdict"] in ("stale", "fresh"):
+                mlv = [] if mo.get("diag") is None else [mo["diag"]]
+                if sd["badness"] != mo.get("gateBadness") or sd["levels"] != mlv:
+                    res.count("gate-diagnostic-differs")
+                    res.disagreements.append({"case": case, "impl": {"gate_badness": sd["badness"], "levels": sd["levels"]},
+                                              "model": {"gate_badness": mo.get("gateBadness"), "levels": mlv}})
+                res.count("gate-diag:" + ",".join(sd["levels"]) + ":badness=" + str(sd["badness"]))
             res.count("corruption:" + c["shape"].split(":")[0])
             res.count("gate:" + io["verdict"] + (":" + io["err"] if "err" in io else ""))
             if c["shape"].startswith("field:") and c["expect"] == "stale":
@@ -1344,18 +1932,40 @@ def deps_cases(tier, rng):
         {"target": 6, "pipmod": 0, "stdmod": 0, "direct": 2},
         {"target": 0, "direct": 6},
     ]
+    # round 3: modules without definitions on the path; modules behind symbolic links
+    shapes3 = [
+        {"target": 10}, {"target": 10, "pkginit": 7}, {"target": 10, "pkginit": 5, "pkgimpl": 3, "pkgconsts": 2},
+        {"target": 10, "pkginit": 1}, {"target": 10, "pkginit": 2}, {"target": 12, "pkginit": 3},
+        {"target": 10, "pkginit": 6}, {"target": 10, "pkginit": 4}, {"target": 10, "pkginit": 8, "pkgimpl": 4},
+        {"target": 11}, {"target": 11, "reexp": 2}, {"target": 11, "reexp": 3}, {"target": 11, "reexp": 4},
+        {"target": 13, "reexp": 1, "pkginit": 5},
+        {"target": 0, "direct": 9}, {"target": 0, "direct": 10}, {"target": 0, "direct": 11}, {"target": 0, "direct": 13},
+        {"target": 6, "pipmod": 5, "stdmod": 3}, {"target": 17, "pkgimpl": 4},
+        {"target": 14}, {"target": 14, "link:settings": "prod"}, {"target": 14, "sdev": 2},
+        {"target": 15}, {"target": 15, "link:plugins": "v2"},
+        {"target": 16, "link:plugins": "v2", "link:settings": "prod"}, {"target": 0, "direct": 12, "link:settings": "prod"},
+    ]
     opts = [i for i, o in enumerate(OPTIONS) if o["via"] == "short" and not o["other"] and not o["x"]
             and (i in LEVEL_OPT.values() or (o["follow"] in (2, 3) and o["F"]))]
     # the case / origin / stdlib-name groups at level 1 too
     for key in (("F", "case"), ("F", "case-pip"), ("F", "origin"), ("F", "stdlib-name")):
         opts += [i for i in GROUPS[key] if i not in opts]
     cases = [(dict(STATE0, **sh), oi) for sh in shapes for oi in opts]
+    # the new shapes: every follow level; exclusion by the origin of a package / of a link path
+    opts3 = [i for i, o in enumerate(OPTIONS) if o["via"] == "short" and not o["other"] and not o["x"]
+             and o["F"] in ([r".*/pkg/__init__\.py"], ["pkg"], [r"pkg\..*"], [r".*/settings\.py"], [r".*/impl/settings_dev\.py"],
+                            [r".*/plugins/.*"], [r".*/plugins_v1/.*"])]
+    cases3 = [(dict(STATE0, **sh), oi) for sh in shapes3 for oi in list(LEVEL_OPT.values()) + opts3]
     if tier == "quick":
         keep = [c for c in cases if c[1] in LEVEL_OPT.values()]
         rest = [c for c in cases if c[1] not in LEVEL_OPT.values()]
         rng.shuffle(rest)
         cases = keep + rest[:90]
-    return cases
+        keep3 = [c for c in cases3 if c[1] == LEVEL_OPT[1]]
+        rest3 = [c for c in cases3 if c[1] != LEVEL_OPT[1]]
+        rng.shuffle(rest3)
+        cases3 = keep3 + rest3[:30]
+    return cases + cases3
 
 
 def deps_in_process(d, cases):
@@ -1380,8 +1990,12 @@ def deps_in_process(d, cases):
                     if on_disk.get(role) != state[role]:
                         write_role(d, role, state[role])
                         on_disk[role] = state[role]
+                for name in LINKS:
+                    if on_disk.get(lkey(name)) != state[lkey(name)]:
+                        set_link(d, name, state[lkey(name)])
+                        on_disk[lkey(name)] = state[lkey(name)]
                 o = OPTIONS[oi]
-                for m in list(ROLE_OF_MOD) + ["target"]:
+                for m in list(ALL_MODS) + ["target", "impl", "plugins_v1", "plugins_v2"]:
                     sys.modules.pop(m, None)
                 _il.invalidate_caches()
                 impl.reset_config(_follow_imports_level=o["follow"], _excluded_imports=list(o["F"]),
@@ -1407,9 +2021,19 @@ def deps_in_process(d, cases):
                 outs.append(ob)
     finally:
         sys.path[:] = saved_path
-        for m in list(ROLE_OF_MOD) + ["target"]:
+        for m in list(ALL_MODS) + ["target", "impl", "plugins_v1", "plugins_v2"]:
             sys.modules.pop(m, None)
     return outs
+
+
+def path_class(f_):
+    """Class of a project-relative path as the follower opens it: local / pip / stdlib, `:via-link` for
+    a path through a symbolic link."""
+    for m, (org, _l, _c) in LINKMODS.items():
+        if org == f_:
+            return "local:via-link"
+    role = next((r for r in ROLES if FILES[r][0] == f_), None)
+    return CLASS.get(role, "?")
 
 
 def deps_stream(res, tier, rng, model):
@@ -1422,11 +2046,13 @@ def deps_stream(res, tier, rng, model):
         outs = deps_in_process(d, cases)
         payloads = []
         for state, oi in cases:
-            ops = [["edit", r, state[r]] for r in ROLES if state[r] != 0] + [["changeOption", oi], ["runWithCache"]]
+            ops = [["edit", r, state[r]] for r in ROLES if state[r] != 0] + \
+                  [["relink", n, state[lkey(n)]] for n in LINKS if state[lkey(n)] != LINK0[n]] + \
+                  [["changeOption", oi], ["runWithCache"]]
             recs = [{"op": o_} for o_ in ops[:-1]] + [{"op": ops[-1], "state": dict(state, opt=oi), "dir": str(d),
                                                       "fresh": {"exit": 0, "out": "{}", "tb": False}}]
             payloads.append(history_payload(ops, recs, "?"))
-        mouts = model.batch([("cache_deps_history", p_) for p_ in payloads])
+        mouts = model.batch([("cache_x_history", p_) for p_ in payloads])
         for (state, oi), ob, mo in zip(cases, outs, mouts):
             o = OPTIONS[oi]
             res.evaluations += 1
@@ -1446,11 +2072,10 @@ def deps_stream(res, tier, rng, model):
             # oracle: read => target or recorded
             for f_ in ob["opened"]:
                 if f_ != "target.py" and f_ not in ob["recorded"]:
-                    role = next((r for r in ROLES if FILES[r][0] == f_), "?")
-                    res.violations.append({"signature": f"module-read-but-not-recorded:{CLASS.get(role, '?')};follow={o['follow']}",
+                    res.violations.append({"signature": f"module-read-but-not-recorded:{path_class(f_)};follow={o['follow']}",
                                            "case": {**case, "file": f_}, "impl": ob})
             for f_ in ob["opened"]:
-                res.count("deps:read:" + CLASS.get(next((r for r in ROLES if FILES[r][0] == f_), "?"), "?"))
+                res.count("deps:read:" + path_class(f_).split(":")[0])
             mine = {"opened": sorted(ms["readSet"]), "recorded": sorted(ms["recorded"]), "irs": ms["analysed"]}
             theirs = {"opened": ob["opened"], "recorded": ob["recorded"], "irs": ob["irs"]}
             if ms.get("bfs") != "done" or mine != theirs:
@@ -1645,13 +2270,28 @@ def directed_histories(names, rng):
                         continue
                     h += [["edit", role, v], ["runWithCache"]]
                 out.append(h)
+        # every def-less variant of every intermediate module x every leaf edit, at the levels 1 and 2
+        for lvl in (1, 2):
+            for tgt, mid, leaf in ((10, "pkginit", "pkgimpl"), (11, "reexp", "trans"), (13, "pkginit", "pkgconsts")):
+                for v in range(len(FILES[mid][1])):
+                    out.append([["edit", "target", tgt], ["edit", mid, v], ["edit", "pkgimpl", 3],
+                                ["changeOption", LEVEL_OPT[lvl]], ["runWithCache"], ["edit", leaf, 1], ["runWithCache"],
+                                ["edit", leaf, 2], ["runWithCache"]])
+        out += link_histories("thorough") + defless_histories("thorough")
+    if any(k in n for n in names for k in ("gate_diagnostics", "gate_levels", "badness")):
+        for kind in DAMAGE_KINDS:
+            for lim in ("strict", 2, ("toml", "strict")):
+                out.append([["edit", "target", 3 if lim == 2 else 18], ["changeOption", STRICT_OPT[lim]], ["runWithCache"],
+                            ["damage", kind], ["runWithCache"], ["runWithCache"]])
     return out
 
 
 def run(tier, seed, build):
     res = common.Result(PID)
-    res.rule = ("histories: op sequences over {edit <any file: target, local / site-packages / stdlib-named module>, "
-                "changeOption <follow level, excluded imports / names, un-hashed options; short / long flags or "
+    res.rule = ("histories: op sequences over {edit <any file: target, local / site-packages / stdlib-named module, "
+                "package __init__ / sub-module, file behind a symbolic link>, editlink <through a link>, relink <file "
+                "or directory link>, damage <the cache file>, changeOption <follow level, excluded imports / names, "
+                "un-hashed options incl. every strictness setting; short / long flags or "
                 "pyproject.toml>, runWithCache, forceRefresh} executed through the real CLI, closed by a "
                 "run; non-trivial = distinct history with >= 1 run with a cache file, or distinct corrupted cache "
                 "content, or distinct pair of option sets given to make_arguments_hash; evaluations = CLI runs with a "
@@ -1661,13 +2301,15 @@ def run(tier, seed, build):
 
     hists = [close(h) for h in CORPUS]
     hists += [close(h) for h in class_level_histories()] + [close(h) for h in option_pair_histories()]
+    hists += [close(h) for h in defless_histories(tier)] + [close(h) for h in link_histories(tier)]
+    hists += [close(h) for h in strict_damage_histories(rng, tier)]
     names = broken_theorems(build)
     if names:
         res.extra["search_directed_by_broken_obligations"] = sorted(names)
         hists += [close(h) for h in directed_histories(names, rng)]
     if tier == "quick":
-        hists += [random_history(rng, 6) for _ in range(24)] + [random_history(rng, 9) for _ in range(8)]
-        hists += [random_history2(rng, 8) for _ in range(34)]
+        hists += [random_history(rng, 6) for _ in range(16)] + [random_history(rng, 9) for _ in range(5)]
+        hists += [random_history2(rng, 8) for _ in range(28)]
         hists += exhaustive_histories(2)
         res.extra["exhaustive_history_length"] = 2
     else:
@@ -1687,6 +2329,17 @@ def run(tier, seed, build):
             uniq.append(h)
     hists = uniq
     res.extra["histories"] = len(hists)
+
+    # isort builds its pattern tables lazily and not thread-safely: ask every verdict the worker
+    # threads will need here, in the main thread, before they start (a half-built table answers
+    # "not stdlib" and the answer is cached)
+    for n_ in list(ALL_MODS) + list(EXTERNAL) + ["nosuch", "pkg.nosuch"]:
+        for m_ in names_right(n_):
+            is_stdlib_name(m_)
+    permanent_patterns()
+    for role_ in ROLES:
+        for i_ in range(len(FILES[role_][1])):
+            imports_of(role_, i_)
 
     with cf.ThreadPoolExecutor(max_workers=16) as ex:
         all_recs = list(ex.map(run_history, hists))
@@ -1715,7 +2368,7 @@ def run(tier, seed, build):
 
     model = common.Model()
     payloads = [history_payload(h, recs, version) for h, recs in zip(hists, all_recs)]
-    mouts = model.batch([("cache_deps_history", p) for p in payloads])
+    mouts = model.batch([("cache_x_history", p) for p in payloads])
     plugins_seen = set()
 
     for h, recs, pay, mo in zip(hists, all_recs, payloads, mouts):
@@ -1752,7 +2405,16 @@ def run(tier, seed, build):
                                                 "fresh_exit": rec["fresh"]["exit"]}})
         for op in h:
             op = normalise(op)
-            res.count("op:" + op[0] + (":" + CLASS[op[1]] if op[0] == "edit" else ""))
+            res.count("op:" + op[0] + (":" + CLASS[op[1]] if op[0] == "edit" else "")
+                      + (":" + DAMAGE[op[1]][1] if op[0] == "damage" else ""))
+        for rec in runs:
+            # the badness a target variant has by construction vs the one observed from outside
+            tv = rec["state"]["target"]
+            if rec.get("badness") is not None and tv in PLANNED_BADNESS and OPTIONS[rec["state"]["opt"]]["follow"] >= 1 \
+                    and rec["state"]["direct"] == 0 and rec["badness"] != PLANNED_BADNESS[tv]:
+                res.internal_errors.append({"what": "a target's badness is not the one its thresholds were planned around",
+                                            "target": tv, "observed": rec["badness"], "planned": PLANNED_BADNESS[tv]})
+                break
         res.sample({"case": case, "impl": [impl_out(r) if "run" in r else "-" for r in recs]}, cap=6)
         if skip:
             continue
@@ -1765,7 +2427,13 @@ def run(tier, seed, build):
                 continue
             io = impl_out(rec)
             d = rec["dir"]
-            real = real_disk_projection(rec["after"], d, version, argmap, plugins_seen)
+            dmg = next((c_ for c_ in rec.get("since_write") or [] if c_.startswith("damaged:")), None)
+            if dmg and not rec["rewritten"] and rec["after"] == rec["before"]:
+                # the damaged file is still there: name it as the model does
+                cls_ = DAMAGE[dmg.split(":", 1)[1]][1]
+                real = {"removed": "absent", "notJson": "malformed"}.get(cls_, cls_.replace("raises:", "crashing:"))
+            else:
+                real = real_disk_projection(rec["after"], d, version, argmap, plugins_seen)
             mdisk = ms["disk"]
             if isinstance(mdisk, dict):
                 mdisk = {**mdisk, "imports": sorted(mdisk["imports"]), "args": model_optkey(mdisk["args"])}
@@ -1777,6 +2445,12 @@ def run(tier, seed, build):
                 res.internal_errors.append({"what": "Lean import follower / recorded origins differ from the independent "
                                                     "Python reading", "case": {**case, "step": i}, "python": mine,
                                             "lean": theirs, "bfs": ms.get("bfs")})
+                break
+            if rec.get("badness") is not None and ms.get("plainOk") != (rec["fresh"]["exit"] == 0):
+                # the model's reading of is_within_badness_threshold (badness, limit) vs the from-scratch run
+                res.disagreements.append({"case": {**case, "step": i}, "impl": {"fresh_exit": rec["fresh"]["exit"],
+                                                                                  "badness": rec["badness"]},
+                                          "model": {"plainOk": ms.get("plainOk"), "limit": limit_json(OPTIONS[rec["state"]["opt"]])}})
                 break
             if ms.get("missingRow") or io != ms["out"] or real != mdisk:
                 res.disagreements.append({"case": {**case, "step": i}, "impl": {"out": io, "disk": real},
@@ -1792,12 +2466,15 @@ def run(tier, seed, build):
     corruption_stream(res, tier, rng, model)
     hash_probe(res)
     res.extra["hash_block_size"] = BLOCK
+    res.extra["cli_invocations"] = CLI_CALLS[0]
+    res.extra["from_scratch_runs_shared_between_histories"] = len(_FRESH)
 
     res.assumptions = [
         "frame hypothesis, reduced (Lean: FreshFrame): the results depend only on target path, hashed options, version, plugins and the content of the files the import follower reads — tested end-to-end by the from-scratch oracle, not proved; that every file read is the target or a recorded origin, and that the recorded origins depend only on the files read, are now theorems about the model of the import follower + make_cacheable_import_info (deps_covers, deps_recorded_frame), and that model is compared with every real cache document",
         "re.fullmatch, isort's place_module and the module locator are trusted classifiers (parameters of the model); hash_string(str(HashableArguments)) is treated as injective, like md5",
         "[interp] the excluded-import / excluded-name patterns are a SET of the strings as given: order and repetition are not a change, letter case and white space are",
-        "md5 treated as injective; directory structure fixed (content edits only)",
+        "md5 treated as injective; directory structure fixed (content edits and re-pointed symbolic links only; every link leads to a regular file at all times)",
+        "[interp] 'treated as stale' for a missing / damaged cache file = the run is the run without a cache file: same exit status, same output, cache rewritten, under every strictness option (Lean: C19_damaged_as_absent); a target's own badness is observed from outside with a --strict from-scratch run",
         "[interp] 'a fresh run would give the cached results' includes 'a fresh run would succeed': a hit under --threshold/--strict where the from-scratch run is fatal is a violation",
         "[interp] 'corrupted or of the wrong shape' = not UTF-8 / not JSON / a JSON value whose fields do not have the declared JSON types; same-type value changes (undetectable without a checksum) are only required not to crash",
         "PYTHONHASHSEED=0 for every CLI run (hash-seed dependence is C05/C18's subject)",
@@ -1822,9 +2499,17 @@ def replay(path):
             elif r["op"][0] in ("edit", *EDIT_OPS):
                 op = normalise(r["op"])
                 print("op", r["op"], "=", FILES[op[1]][0], "<-", repr(src_of(op[1], op[2])[-120:]))
+            elif r["op"][0] == "editlink":
+                print("op", r["op"], "= write through the link path", origin_rel(r["op"][1]), "(", FILES[r["role"]][0], ") <-",
+                      repr(src_of(r["role"], r["op"][2])[-120:]))
+            elif r["op"][0] == "relink":
+                path, kind, choices = LINKS[r["op"][1]]
+                print("op", r["op"], "= ln -sfn", choices[r["op"][2]], path, f"({kind} link)")
+            elif r["op"][0] == "damage":
+                print("op", r["op"], "= the cache file is damaged:", r["op"][1], "(model class:", DAMAGE[r["op"][1]][1] + ")")
             else:
                 print("op", r["op"])
-        mo = common.Model().batch([("cache_deps_history", history_payload(case["ops"], recs, "?"))])[0]
+        mo = common.Model().batch([("cache_x_history", history_payload(case["ops"], recs, "?"))])[0]
         print("model:", [s["out"] for s in mo.get("steps", [])] if isinstance(mo, dict) and "steps" in mo else mo)
     elif case.get("stream") == "deps":
         d = make_project("c19d_")
@@ -1858,14 +2543,16 @@ def replay(path):
         d, _ = make_cache_project()
         try:
             good = (d / "cache.json").read_bytes()
-            if case.get("truncate_at") is not None:
+            if case.get("absent"):
+                b = None
+            elif case.get("truncate_at") is not None:
                 b = good[:case["truncate_at"]]
             elif case.get("bytes_hex") is not None:
                 b = bytes.fromhex(case["bytes_hex"]).replace(case.get("project_dir", "\0").encode(), str(d).encode())
             else:
                 print("blob not stored; label:", case.get("label"))
                 return 0
-            print("impl:", gate_in_process(d, [b])[1][0], "| file content:", classify_bytes(b)["k"])
+            print("impl:", gate_in_process(d, [b])[1][0], "| file content:", "absent" if b is None else classify_bytes(b)["k"])
         finally:
             shutil.rmtree(d, ignore_errors=True)
     return 0
